@@ -43,7 +43,7 @@ def apply(rebound, rb, sim, cfg, op):
     return _apply(rebound, rb, sim, cfg, op)
 
 
-EDITS = {"add", "remove", "remove_hash", "remove_all", "move", "add_variation", "megno", "switch", "reset_integrator"}
+EDITS = {"add", "remove", "remove_hash", "remove_all", "move", "add_variation", "megno", "switch", "reset_integrator", "signed_zero"}
 
 
 def _apply(rebound, rb, sim, cfg, op):
@@ -137,6 +137,12 @@ def _apply(rebound, rb, sim, cfg, op):
         p.x += op.get("dx", 0.0)
         p.vy += op.get("dvy", 0.0)
         p.m *= op.get("fm", 1.0)
+    elif k == "signed_zero":
+        # a user (or a symmetric initial condition) may store +0.0 or -0.0: numerically equal, different bit patterns
+        if sim.N - sim.N_var <= 0:
+            return "skip"
+        p = sim.particles[op["pick"] % (sim.N - sim.N_var)]
+        setattr(p, op.get("coord", "vz"), -0.0 if op.get("neg", 1) else 0.0)
     elif k == "add_variation":
         if sim.N - sim.N_var < 2 or not var_ok(sim, sim.integrator, None, current=True):
             return "skip"
